@@ -121,6 +121,10 @@ fn recognize_http(method: &str, target: &str) -> Result<Proxy, anyhow::Error> {
 fn split_authority(authority: &str) -> Result<(String, Option<u16>), anyhow::Error> {
     let (host, port) = if authority.starts_with('[') {
         let end = authority.find(']').ok_or_else(|| anyhow!("invalid host: {}", authority))?;
+        // between the brackets stands an IPv6 address and nothing else
+        if authority[1..end].parse::<std::net::Ipv6Addr>().is_err() {
+            bail!("invalid host: {}", authority);
+        }
         (&authority[..=end], &authority[end + 1..])
     } else {
         let end = authority.find(':').unwrap_or(authority.len());
@@ -130,7 +134,9 @@ fn split_authority(authority: &str) -> Result<(String, Option<u16>), anyhow::Err
         bail!("invalid host: {}", authority);
     }
     let port = match port.strip_prefix(':') {
-        Some(port) => Some(port.parse()?),
+        // port = *DIGIT: `u16::from_str` alone would take a sign
+        Some(port) if !port.is_empty() && port.bytes().all(|b| b.is_ascii_digit()) => Some(port.parse()?),
+        Some(_) => bail!("invalid port: {}", authority),
         None if port.is_empty() => None,
         None => bail!("invalid host: {}", authority),
     };
